@@ -185,3 +185,64 @@ async fn tls_info_for_concurrent_requests() {
         assert!(rx.recv().await.is_some());
     }
 }
+
+/// A.sni.service [C20] (bounded stand-in for `ValidateSNIService::call`, class A): the decision sweep driven through
+/// the public middleware, with ONE service instance (and a clone of it) serving all requests in two different orders -
+/// the verdict on a request must not depend on what the service saw before.
+#[tokio::test]
+async fn standin_sni_service_sweep() {
+    use tower::{Layer as _, Service as _, ServiceExt as _};
+    #[derive(Clone)]
+    struct Echo;
+    impl tower::Service<Request<()>> for Echo {
+        type Response = http::Response<bool>;
+        type Error = std::io::Error;
+        type Future = std::future::Ready<Result<Self::Response, Self::Error>>;
+        fn poll_ready(&mut self, _: &mut std::task::Context<'_>) -> std::task::Poll<Result<(), Self::Error>> { std::task::Poll::Ready(Ok(())) }
+        fn call(&mut self, req: Request<()>) -> Self::Future {
+            // report whether the request arrived marked as validated
+            let marked = req.extensions().get::<TlsConnectionInfo>().map(|t| t.validated_server_name).unwrap_or(false);
+            std::future::ready(Ok(http::Response::new(marked)))
+        }
+    }
+    let sni_name = "example.com";
+    let mut cases = vec![];
+    for v in [http::Version::HTTP_11, http::Version::HTTP_2] {
+        for (uri, auth_host) in [("/path", None), ("https://example.com/path", Some("example.com")), ("https://evil.example/path", Some("evil.example"))] {
+            for host in [None, Some("example.com"), Some("EXAMPLE.com:8443"), Some("evil.example")] {
+                for t in [None, Some(None), Some(Some(sni_name))] {
+                    cases.push((v, uri, auth_host, host, t));
+                }
+            }
+        }
+    }
+    let mut order: Vec<usize> = (0..cases.len()).collect();
+    let mut svc = ValidateSNI.layer(Echo);
+    for round in 0..2 {
+        if round == 1 { order.reverse(); svc = svc.clone(); }
+        for &i in &order {
+            let (v, uri, auth_host, host, t): (http::Version, &str, Option<&str>, Option<&str>, Option<Option<&str>>) = cases[i];
+            let mut req = Request::builder().version(v).uri(uri).body(()).unwrap();
+            if let Some(h) = host { req.headers_mut().insert(header::HOST, h.parse().unwrap()); }
+            if let Some(s) = t {
+                req.extensions_mut().insert(TlsConnectionInfo { server_name: s.map(Into::into), ..TlsConnectionInfo::default() });
+            }
+            let named: Option<String> = if v == http::Version::HTTP_2 && auth_host.is_some() {
+                auth_host.map(|s| s.to_string())
+            } else {
+                host.map(|h| h.rsplit_once(':').map(|(a, _)| a).unwrap_or(h).to_string())
+            };
+            let ctx = format!("round {round} version={v:?} uri={uri} host={host:?} tls={t:?}");
+            let r = svc.ready().await.unwrap().call(req).await;
+            match t {
+                None => assert!(matches!(&r, Ok(resp) if !*resp.body()), "{ctx}: not a TLS request, must be passed on unmarked"),
+                Some(None) => assert!(r.is_err(), "{ctx}: no server name was sent, must be rejected"),
+                Some(Some(s)) => match named {
+                    None => assert!(matches!(&r, Ok(resp) if !*resp.body()), "{ctx}: names no host: passed on, not marked"),
+                    Some(n) if n.eq_ignore_ascii_case(s) => assert!(matches!(&r, Ok(resp) if *resp.body()), "{ctx}: host equals the server name: must be forwarded AND marked validated, got {:?}", r.as_ref().map(|x| *x.body()).map_err(|e| e.to_string())),
+                    Some(_) => assert!(r.is_err(), "{ctx}: host differs from the server name: must be rejected"),
+                },
+            }
+        }
+    }
+}
